@@ -334,7 +334,7 @@ WORDS = ['CO2', 'H2O(S)', 'gas', 'a b', 'TS1_NH3', 'x', 'Ru(0001)', 'linear', 'n
          'café', 'left', '3-fold', 'N2', 'True story', '1e5x', 'v12']
 FORMULAS = ['H2O', 'CH3OH', 'CO', 'PtCl12', 'C2H6', 'NH3', 'RuO2', 'CH3CH2OH', 'H', 'Cu3Pt']
 MODELS = {'trans_model': ['FreeTrans'], 'vib_model': ['HarmonicVib', 'QRRHOVib', 'EinsteinVib', 'DebyeVib'],
-          'rot_model': ['RigidRotor'], 'elec_model': ['GroundStateElec', 'LSR'],
+          'rot_model': ['RigidRotor'], 'elec_model': ['GroundStateElec', 'LSR', 'ExtendedLSR'],
           'nucl_model': ['EmptyNucl']}
 PRESETS = ['idealgas', 'harmonic', 'electronic', 'placeholder', 'constant']
 
